@@ -132,6 +132,7 @@ type Explorer struct {
 	curFrame *frame
 	siblings [][]bool
 	loopCnt  map[ssa.Instruction]int
+	parked   int
 }
 
 func decString(d []bool) string {
@@ -472,8 +473,8 @@ func Explore(cfg *Config) *Stats {
 				case ex.incl != "":
 					st.Inconclusive++
 					k := ex.incl
-					if len(k) > 160 {
-						k = k[:160]
+					if len(k) > 400 {
+						k = k[:400]
 					}
 					st.InconclWhy[k]++
 					if strings.HasPrefix(ex.incl, "bound-exceeded") {
@@ -564,6 +565,8 @@ func (e *Explorer) runPath(prefix []bool, wantWitness bool) (completed bool, wit
 				case pathAbort:
 				case engineUnsupported:
 					e.inconclusive("unsupported: " + p.why + " @ " + e.stack())
+				case blockedForever:
+					e.inconclusive("the harness thread blocks forever: " + p.why + " @ " + e.stack())
 				case targetPanic:
 					panicMsg = "panic: " + toString(p.v)
 					e.recordViolation("panic", "no-panic", panicMsg+" @ "+e.stack())
